@@ -597,6 +597,22 @@ pub fn run(cx: &mut Ctx) {
         probe(c, b"pacK\0\x01\0\0", "magic off by one bit");
         probe(c, b"pack", "magic only");
         probe(c, b"pack\xff\xff\0\0", "count 0xFFFF, no entries");
+        // records that share one name (two, or all of them)
+        c.sit("pack_records_sharing_a_name");
+        for n in [2usize, 3, 5] {
+            let files: Vec<(String, Vec<u8>)> = (0..n).map(|i| (format!("file{}.bin", i), vec![i as u8 + 1; 3 + 7 * i])).collect();
+            let img = crate::refs::containers::pack_build(&files, &crate::refs::containers::PackPlan::default(), &mut r);
+            for dup in 1..n {
+                let mut v = img.clone();
+                let src: [u8; 4] = [v[8 + 4], v[8 + 5], v[8 + 6], v[8 + 7]];
+                v[8 + 16 * dup + 4..8 + 16 * dup + 8].copy_from_slice(&src);
+                probe(c, &v, "pack with two records pointing at the same name");
+                if dup + 1 < n {
+                    v[8 + 16 * (dup + 1) + 4..8 + 16 * (dup + 1) + 8].copy_from_slice(&src);
+                    probe(c, &v, "pack with three records pointing at the same name");
+                }
+            }
+        }
         c.sit("pack_size_field_2_30");
         for size in [1u32 << 30, 1 << 28, 1 << 24, 0x7FFF_FFFF, 0xFFFF_FFFF, 65] {
             let mut v = b"pack\0\x01\0\0".to_vec();
